@@ -18,8 +18,13 @@ View == <<root, depth, nv2>>
 (* Sch = 1: every option kind; Sch = 2: the same layout with printable kinds *)
 (* only (the pointer and the function are replaced), for the print/parse     *)
 (* round trip of C05                                                        *)
+(* Sch = 3: options whose value lives in the caller's variables (the CFG_SIMPLE macros)      *)
 ApiSchema ==
-  IF Sch = 2 THEN
+  IF Sch = 3 THEN
+  << DSimple("n", "int", "0"), DSimple("w", "str", Null), DSimple("v", "bool", "false"),
+     DSimple("d", "float", "0"), DInt("i", "7"),
+     DSec("sec", {}, << DSimple("k", "int", "0"), DStr("s", "d") >>) >>
+  ELSE IF Sch = 2 THEN
   << DInt("i", "7"), DStr("s", "d"), DIntList("l", <<"1","2">>), DStrList("sl", <<>>),
      DBool("b", "false"), DFloat("f", "1.5"),
      DSec("t", {"MULTI","TITLE"}, << DInt("x", "5"), DStr("p", "z"), DStrList("tl", <<"u">>) >>),
@@ -99,8 +104,27 @@ Calls ==
                  Call("setstr", T1, "p", 0, "# /* x */", <<>>) }
           ELSE {})
 
+SEC3 == <<[oi |-> 6, ii |-> 1]>>
+Calls3 ==
+  { Call("setint", <<>>, "n", 0, "3", <<>>),    Call("setint", <<>>, "n", 1, "3", <<>>),
+    Call("setint", <<>>, "n", 0, "5", <<>>),    Call("setint", <<>>, "w", 0, "3", <<>>),
+    Call("setstr", <<>>, "w", 0, "v", <<>>),    Call("setstr", <<>>, "w", 0, "a\"b", <<>>),
+    Call("setstr", <<>>, "w", 0, "", <<>>),     Call("setstr", <<>>, "n", 0, "v", <<>>),
+    Call("setstr", <<>>, "w", 1, "v", <<>>),
+    Call("setbool", <<>>, "v", 0, "true", <<>>), Call("setfloat", <<>>, "d", 0, "2.25", <<>>),
+    Call("setfloat", <<>>, "v", 0, "2.25", <<>>),
+    Call("setmulti", <<>>, "n", 0, "", <<"5">>), Call("setmulti", <<>>, "n", 0, "", <<"x">>),
+    Call("setmulti", <<>>, "w", 0, "", <<"abc">>),
+    Call("setopt", <<>>, "n", 0, "0x10", <<>>),  Call("setopt", <<>>, "n", 0, "x", <<>>),
+    Call("setopt", <<>>, "v", 0, "yes", <<>>),   Call("setopt", <<>>, "v", 0, "maybe", <<>>),
+    Call("setopt", <<>>, "w", 0, "a b", <<>>),   Call("setopt", <<>>, "d", 0, "1.5", <<>>),
+    Call("setcomment", <<>>, "n", 0, "note", <<>>),
+    Call("setlist", <<>>, "n", 0, "", <<"3">>),  Call("addlist", <<>>, "w", 0, "", <<"w">>),
+    Call("setint", <<>>, "i", 0, "3", <<>>),
+    Call("setint", SEC3, "k", 0, "6", <<>>),     Call("setstr", SEC3, "s", 0, "v", <<>>) }
+
 (* a NULL string has no spelling in the configuration language: not part of the round trip *)
-CallsHere == IF Sch = 2 THEN {c \in Calls : c.val # Null} ELSE Calls
+CallsHere == IF Sch = 3 THEN Calls3 ELSE IF Sch = 2 THEN {c \in Calls : c.val # Null} ELSE Calls
 
 Init ==
   /\ root = IF Pre = 1 THEN RootOf(PreRun) ELSE InitRoot
@@ -148,7 +172,7 @@ P_C09_RemoveKeepsOrder ==
 
 (* C09: titles of a titled multi section stay unique *)
 TitlesUnique(o) == \A i, j \in 1..Len(o.vals) : i # j => o.vals[i].title # o.vals[j].title
-P_C09_TitlesUnique == TitlesUnique(root.opts[7])
+P_C09_TitlesUnique == Sch = 3 \/ TitlesUnique(root.opts[7])
 
 (* C09 / C10: a failing call has no effect on anything the getters show,    *)
 (* nor on the default / modified markers and the annotation                *)
@@ -183,18 +207,24 @@ P_C07_Ledger ==
 (* (sections, titles, list lengths, values; floats to printed precision;   *)
 (* annotations when annotation support is on)                              *)
 P_C05_RoundTrip ==
-  Sch = 2 =>
+  Sch \in {2, 3} =>
     LET q == PRun(PInit(InitRoot, ParseCfg(FALSE, TRUE, FALSE, 0, 0, 0), "buf", FALSE, 0, 0, 0), PrintToks(root))
+        q2 == PRun(PInit(InitRoot, ParseCfg(FALSE, TRUE, FALSE, 0, 0, 0), "buf", FALSE, 0, 0, 0), PrintToks(RootOf(q)))
     IN /\ q.status = "ok"
-       /\ RtSec(RootOf(q)) = RtSec(root)
-       (* and printing the re-parsed configuration reproduces the text *)
-       /\ PrintCfg(RootOf(q), 0) = PrintCfg(root, 0)
+       /\ RtSecV(RootOf(q)) = RtSecV(root)
+       (* annotations come back too, and printing the re-parsed configuration reproduces the text, *)
+       (* unless a commented-out scalar was read back as the annotation of its successor           *)
+       /\ ~AnyUnset(root) => /\ RtSec(RootOf(q)) = RtSec(root)
+                             /\ PrintCfg(RootOf(q), 0) = PrintCfg(root, 0)
+       (* in every case a further parse-and-print cycle leaves the text unchanged *)
+       /\ q2.status = "ok"
+       /\ PrintCfg(RootOf(q2), 0) = PrintCfg(RootOf(q), 0)
 
 (* export of transitions for leg A *)
 (* the full prediction is exported for the last call only: every earlier   *)
 (* call of the path is the last call of its own behaviour                  *)
 EmitT == PrintT(<<"BEH", ToJson([pre |-> Pre, fail2 |-> Fail2, rw2 |-> Rw2,
-            printed |-> IF Sch = 2 THEN [i \in 1..Len(PrintCfg(root', 0)) |-> PrintCfg(root', 0)[i].text] ELSE <<>>,
+            printed |-> IF Sch \in {2, 3} THEN [i \in 1..Len(PrintCfg(root', 0)) |-> PrintCfg(root', 0)[i].text] ELSE <<>>,
             calls |-> [i \in 1..Len(hist') |->
                          IF i = Len(hist') THEN hist'[i]
                          ELSE [call |-> hist'[i].call, exp |-> [ret |-> hist'[i].exp.ret]]]])>>)
